@@ -1,3 +1,3 @@
 From Coq Require Import ExtrOcamlBasic.
-From Draco Require Import Base.DriverSupport Model.Varint Model.BitCoders Model.SeqCodec Model.KdTree.
-Extraction "m.ml" ds_api enc_le dec_le kd_encode_points kd_decode_points kd_enc_pc kd_dec_pc_stream.
+From Draco Require Import Base.DriverSupport Base.Float32 Model.Varint Model.BitCoders Model.SeqCodec Model.KdTree.
+Extraction "m.ml" ds_api enc_le dec_le kd_encode_points kd_decode_points kd_enc_pc kd_dec_pc_stream bits_of_f32.
